@@ -49,4 +49,12 @@ theorem src :
     Gen.Slip10.src_eddsa_PublicKey_Shift = Expect.Slip10_src_eddsa_PublicKey_Shift :=
   ⟨rfl, rfl, rfl, rfl, rfl, rfl, rfl, rfl, rfl, rfl, rfl, rfl, rfl, rfl, rfl, rfl, rfl, rfl, rfl, rfl, rfl, rfl, rfl, rfl, rfl, rfl, rfl, rfl, rfl, rfl, rfl, rfl⟩
 
+/-- everything else the package declares (imports, constants, types, variables, build constraints and the functions not
+pinned one by one) is unchanged too: no declaration of the modelled packages can change without a tie theorem failing. -/
+theorem rest :
+    Gen.Slip10.rest_slip10 = Expect.Slip10_rest_slip10 ∧
+    Gen.Slip10.rest_elliptic = Expect.Slip10_rest_elliptic ∧
+    Gen.Slip10.rest_eddsa = Expect.Slip10_rest_eddsa :=
+  ⟨rfl, rfl, rfl⟩
+
 end Iota.Tie.Slip10
